@@ -35,7 +35,7 @@ def leaf_set(e, negated):
         try:
             p = cs.build(e)
             got = cs.scan(str(p))
-            _LEAF_CACHE[key] = (cs.complement(got) if negated else got, cs.re.search(r'\\[dswDSW]', str(p)) is not None)
+            _LEAF_CACHE[key] = (cs.complement(got) if negated else got, cs.shorthand_kinds(str(p)))
         except cs.NotACharSet as ex:
             _LEAF_CACHE[key] = LeafBroken(f'{cs.render(e)} -> {ex}')
         except treecheck.documented_exceptions():
